@@ -634,6 +634,9 @@ class SymArray(np.ndarray):
 
     # ---- indexing
     def __getitem__(self, k):
+        g = _as_full_symint_index(self, k)
+        if g is not None:
+            return sym_gather(self, g)
         k = _prep_index(k)
         r = np.ndarray.__getitem__(self, k)
         return r
@@ -723,6 +726,61 @@ class SymArray(np.ndarray):
 
     def __repr__(self):
         return 'SymArray(%s)' % (self.view(np.ndarray).tolist(),)
+
+
+def _as_full_symint_index(arr, k):
+    """k indexes every dimension of arr with integer arrays of which at least one is symbolic -> list of arrays"""
+    if not isinstance(k, tuple):
+        k = (k,)
+    if len(k) != arr.ndim or not any(is_symint_array(x) or isinstance(x, SymInt) for x in k):
+        return None
+    out = []
+    for x in k:
+        if isinstance(x, SymInt) or is_symint_array(x):
+            out.append(x)
+        elif isinstance(x, (int, np.integer)):
+            out.append(x)
+        elif isinstance(x, np.ndarray) and x.dtype.kind in 'iu':
+            out.append(x)
+        else:
+            return None
+    return out
+
+
+def sym_gather(arr, idx):
+    """arr[idx0, idx1, ...] with symbolic integer index arrays: an if-then-else chain over the source positions
+    (no fork per element); IndexError where an index can be out of range"""
+    base = arr.view(np.ndarray)
+    idx = [np.asarray(_as_objarr(obj(i)) if not isinstance(i, (int, np.integer)) else i, dtype=object) for i in idx]
+    idx = np.broadcast_arrays(*idx)
+    shape = idx[0].shape
+    out = np.empty(shape, dtype=object)
+    positions = list(np.ndindex(*base.shape))
+    if not positions:
+        raise IndexError('index into an empty symbolic array')
+    for o in np.ndindex(*shape):
+        ks = []
+        valid = TRUE
+        for d, i in enumerate(idx):
+            kk = lift(i[o])
+            if isinstance(kk, SymReal):
+                raise IndexError('arrays used as indices must be of integer (or boolean) type')
+            n = base.shape[d]
+            valid = And_(valid, kk.t >= -n, kk.t < n)
+            ks.append(SymInt(If_(kk.t < 0, kk.t + n, kk.t)))
+        if not bool(SymBool(valid)):
+            raise IndexError('index out of bounds (symbolic index)')
+        acc = None
+        for pos in reversed(positions):
+            if acc is None:
+                acc = base[pos]
+                continue
+            cond = SymBool(And_(*[ks[d].t == pos[d] for d in range(len(pos))]))
+            acc = ite(cond, base[pos], acc)
+        out[o] = acc
+    if out.ndim == 0:
+        return out[()]
+    return wrap(out)
 
 
 class FlatView:
@@ -1077,8 +1135,9 @@ def af_linspace(start, stop, num=50, endpoint=True, retstep=False, dtype=None, a
 
 
 def af_meshgrid(*xi, indexing='xy', **kw):
-    if kw.get('sparse') or kw.get('copy') is False:
+    if kw.get('sparse'):
         raise EngineLimit('meshgrid options')
+    copy = kw.get('copy', True)
     xs = [np.asarray(obj(x), dtype=object) if not isinstance(obj(x), Sym) else _as_objarr(obj(x)).reshape(1) for x in xi]
     n = len(xs)
     shape = [x.size for x in xs]
@@ -1091,7 +1150,7 @@ def af_meshgrid(*xi, indexing='xy', **kw):
         out[0] = out[0].reshape((1, -1) + (1,) * (n - 2))
         out[1] = out[1].reshape((-1, 1) + (1,) * (n - 2))
         shape[0], shape[1] = shape[1], shape[0]
-    return tuple(wrap(np.broadcast_to(o, shape).copy()) for o in out)
+    return tuple(wrap(_bt(o, shape).copy() if copy else _bt(o, shape)) for o in out)
 
 
 def af_array_equal(a, b, **kw):
@@ -1465,6 +1524,8 @@ def _install_seq_ops():
 
             def make(orig, uf, refl):
                 def op(self, o):
+                    if isinstance(o, tuple) and uf in (np.equal, np.not_equal):
+                        return uf is np.not_equal          # like a Python number: never equal to a tuple
                     if isinstance(o, (list, tuple)) or (isinstance(o, np.ndarray) and o.ndim > 0):
                         arr = obj(o)
                         return array_ufunc(uf, '__call__', (arr, self) if refl else (self, arr), None, {})
